@@ -144,9 +144,15 @@ func runC10(c *Ctx) {
 			c.Res.Notes = append(c.Res.Notes, "replay unreadable")
 			return
 		}
+		var lg struct{ Case struct{ Leg string `json:"leg"` } `json:"case"` }
+		if json.Unmarshal(b, &lg) == nil && lg.Case.Leg == "package-bindings" {
+			c10PackageBindings(c) // the leg is a fixed pair of projects
+			return
+		}
 		c10Run(c, wrap.Case)
 		return
 	}
+	c10PackageBindings(c)
 	optionals := []string{"", "pointer", "generic"}
 	decoys := []string{"", "other-field", "alias-key"}
 	aliases := []string{"", "renamed", "sN"} // "sN": an alias that equals ANOTHER field's name
